@@ -1127,4 +1127,391 @@ theorem extractStep_ok {ps ps' : List EProd} (h : extractStep ps = .changed ps')
     · exact .inr hfresh
     · exact .inr hfresh
 
+/-! ## no optional is left after `extract_options`, and none is created later -/
+
+mutual
+def Factor.hasOpt : Factor → Bool
+  | .t _ => false
+  | .n _ _ => false
+  | .group as => altsHasOpt as
+  | .opt _ => true
+  | .rep as => altsHasOpt as
+def altsHasOpt : List (List Factor) → Bool
+  | [] => false
+  | a :: as => altHasOpt a || altsHasOpt as
+def altHasOpt : List Factor → Bool
+  | [] => false
+  | f :: fs => f.hasOpt || altHasOpt fs
+end
+
+theorem altHasOpt_append (a b : List Factor) :
+    altHasOpt (a ++ b) = (altHasOpt a || altHasOpt b) := by
+  induction a with
+  | nil => simp [altHasOpt]
+  | cons f a ih => simp [altHasOpt, ih, Bool.or_assoc]
+
+theorem altsHasOpt_append (a b : Alts) :
+    altsHasOpt (a ++ b) = (altsHasOpt a || altsHasOpt b) := by
+  induction a with
+  | nil => simp [altsHasOpt]
+  | cons f a ih => simp [altsHasOpt, ih, Bool.or_assoc]
+
+theorem altsHasOpt_false {as : Alts} : altsHasOpt as = false ↔ ∀ a ∈ as, altHasOpt a = false := by
+  induction as with
+  | nil => simp [altsHasOpt]
+  | cons a as ih => simp [altsHasOpt, ih]
+
+def NoOpt (G : List EProd) : Prop := ∀ p ∈ G, ∀ a ∈ p.alts, altHasOpt a.fs = false
+
+mutual
+theorem exFactor_none (X : Name) : ∀ f : Factor, exFactor X f = none → f.hasOpt = false
+  | .t _, _ => rfl
+  | .n _ _, _ => rfl
+  | .opt _, h => by simp [exFactor] at h
+  | .group as, h => by
+    simp only [exFactor] at h
+    split at h
+    · cases h
+    · rename_i hn
+      simpa [Factor.hasOpt] using exAlts_none X as hn
+  | .rep as, h => by
+    simp only [exFactor] at h
+    split at h
+    · cases h
+    · rename_i hn
+      simpa [Factor.hasOpt] using exAlts_none X as hn
+theorem exAlt_none (X : Name) : ∀ fs : List Factor, exAlt X fs = none → altHasOpt fs = false
+  | [], _ => rfl
+  | f :: fs, h => by
+    simp only [exAlt] at h
+    split at h
+    · cases h
+    · rename_i hn
+      split at h
+      · cases h
+      · rename_i hn2
+        simp [altHasOpt, exFactor_none X f hn, exAlt_none X fs hn2]
+theorem exAlts_none (X : Name) : ∀ as : Alts, exAlts X as = none → altsHasOpt as = false
+  | [], _ => rfl
+  | a :: as, h => by
+    simp only [exAlts] at h
+    split at h
+    · cases h
+    · rename_i hn
+      split at h
+      · cases h
+      · rename_i hn2
+        simp [altsHasOpt, exAlt_none X a hn, exAlts_none X as hn2]
+end
+
+theorem exEAlts_none (X : Name) : ∀ alts : List EAlt, exEAlts X alts = none →
+    ∀ a ∈ alts, altHasOpt a.fs = false
+  | [], _, a, ha => by cases ha
+  | a0 :: as, h, a, ha => by
+    simp only [exEAlts] at h
+    split at h
+    · cases h
+    · rename_i hn
+      split at h
+      · cases h
+      · rename_i hn2
+        simp only [List.mem_cons] at ha
+        rcases ha with rfl | ha
+        · exact exAlt_none X _ hn
+        · exact exEAlts_none X as hn2 a ha
+
+theorem extractInProds_unchanged (excl : List Name) : ∀ ps : List EProd,
+    extractInProds excl ps = .unchanged → NoOpt ps
+  | [], _ => by intro p hp; cases hp
+  | p :: ps, h => by
+    simp only [extractInProds] at h
+    split at h
+    · cases h
+    · rename_i X hX
+      split at h
+      · cases h
+      · rename_i hn
+        split at h
+        · cases h
+        · rename_i r hne
+          have hrec : extractInProds excl ps = .unchanged := by rw [h]
+          intro q hq
+          simp only [List.mem_cons] at hq
+          rcases hq with rfl | hq
+          · exact exEAlts_none X _ hn
+          · exact extractInProds_unchanged excl ps hrec q hq
+
+theorem splitFirstSome_eq_none {α β} (g : α → Option β) :
+    ∀ l : List α, (∀ y ∈ l, g y = none) → splitFirstSome g l = none
+  | [], _ => rfl
+  | x :: xs, h => by
+    simp only [splitFirstSome]
+    rw [h x (by simp), splitFirstSome_eq_none g xs (fun y hy => h y (by simp [hy]))]
+
+theorem altHasOpt_top {fs : List Factor} (h : altHasOpt fs = false) :
+    ∀ f ∈ fs, f.optInner = none := by
+  induction fs with
+  | nil => intro f hf; cases hf
+  | cons g fs ih =>
+    simp only [altHasOpt, Bool.or_eq_false_iff] at h
+    intro f hf
+    simp only [List.mem_cons] at hf
+    rcases hf with rfl | hf
+    · cases f <;> simp_all [Factor.hasOpt, Factor.optInner]
+    · exact ih h.2 f hf
+
+theorem optStep_noOpt {ps : List EProd} (h : NoOpt ps) : optStep ps = .unchanged := by
+  unfold optStep
+  have : locate Factor.optInner ps = none := by
+    unfold locate
+    simp only
+    rw [splitFirstSome_eq_none]
+    intro p hp
+    simp only [Option.map_eq_none_iff]
+    apply splitFirstSome_eq_none
+    intro a ha
+    simp only [Option.map_eq_none_iff]
+    apply splitFirstSome_eq_none
+    exact altHasOpt_top (h p hp a ha)
+  rw [this]
+
+theorem noOpt_mid {pre post : List EProd} {p : EProd} {news : List EProd}
+    (h : NoOpt (pre ++ p :: post))
+    (hn : (∀ a ∈ p.alts, altHasOpt a.fs = false) → ∀ q ∈ news, ∀ a ∈ q.alts, altHasOpt a.fs = false) :
+    NoOpt (pre ++ news ++ post) := by
+  intro q hq
+  simp only [List.mem_append] at hq
+  rcases hq with (hq | hq) | hq
+  · exact h q (by simp [hq])
+  · exact hn (h p mem_mid) q hq
+  · exact h q (by simp [hq])
+
+theorem Loc.prod_noOpt {L : Loc} {f : Factor} (h : ∀ a ∈ (L.prod f).alts, altHasOpt a.fs = false) :
+    (∀ a ∈ L.apre, altHasOpt a.fs = false) ∧ altHasOpt L.x = false ∧ f.hasOpt = false ∧
+      altHasOpt L.y = false ∧ (∀ a ∈ L.apost, altHasOpt a.fs = false) := by
+  rw [Loc.prod_alts] at h
+  have hm := h ⟨L.x ++ f :: L.y, L.attr⟩ (by simp)
+  simp only [altHasOpt_append, altHasOpt, Bool.or_eq_false_iff] at hm
+  exact ⟨fun a ha => h a (by simp [ha]), hm.1, hm.2.1, hm.2.2, fun a ha => h a (by simp [ha])⟩
+
+theorem Loc.withAlt_noOpt {L : Loc} {fs : List Factor}
+    (h1 : ∀ a ∈ L.apre, altHasOpt a.fs = false) (h2 : altHasOpt fs = false)
+    (h3 : ∀ a ∈ L.apost, altHasOpt a.fs = false) :
+    ∀ a ∈ (L.withAlt fs).alts, altHasOpt a.fs = false := by
+  intro a ha
+  rw [Loc.withAlt_alts] at ha
+  simp only [List.mem_append, List.mem_cons] at ha
+  rcases ha with ha | rfl | ha
+  · exact h1 a ha
+  · exact h2
+  · exact h3 a ha
+
+theorem sepStep_noOpt {ps ps' : List EProd} (h : sepStep ps = .changed ps') (hn : NoOpt ps) :
+    NoOpt ps' := by
+  obtain ⟨pre, p, post, rfl, _, rfl⟩ := sepStep_spec h
+  apply noOpt_mid hn
+  intro hp q hq a ha
+  obtain ⟨a0, ha0, rfl⟩ := List.mem_map.1 hq
+  simp only [List.mem_singleton] at ha
+  subst ha
+  exact hp a ha0
+
+theorem groupStep_noOpt {ps ps' : List EProd} (h : groupStep ps = .changed ps') (hn : NoOpt ps) :
+    NoOpt ps' := by
+  unfold groupStep at h
+  split at h
+  · cases h
+  · rename_i L hL
+    obtain ⟨f, hf, rfl⟩ := locate_spec hL
+    have hfg := groupInner_eq hf
+    subst hfg
+    split at h
+    · rename_i single hin
+      injection h with h
+      subst h
+      apply noOpt_mid hn
+      intro hp q hq
+      simp only [List.mem_singleton] at hq
+      subst hq
+      obtain ⟨h1, h2, h3, h4, h5⟩ := Loc.prod_noOpt hp
+      apply Loc.withAlt_noOpt h1 _ h5
+      simp only [Factor.hasOpt, hin, altsHasOpt, Bool.or_false] at h3
+      simp [altHasOpt_append, h2, h3, h4]
+    · split at h
+      · cases h
+      · rename_i X hX
+        injection h with h
+        subst h
+        apply noOpt_mid hn
+        intro hp q hq
+        obtain ⟨h1, h2, h3, h4, h5⟩ := Loc.prod_noOpt hp
+        simp only [List.mem_cons, List.not_mem_nil, or_false] at hq
+        rcases hq with rfl | rfl
+        · apply Loc.withAlt_noOpt h1 _ h5
+          simp [altHasOpt_append, altHasOpt, Factor.hasOpt, h2, h4]
+        · intro a ha
+          obtain ⟨a0, ha0, rfl⟩ := List.mem_map.1 ha
+          exact altsHasOpt_false.1 (by simpa [Factor.hasOpt] using h3) a0 ha0
+
+theorem repStep_noOpt {ty : GType} {ps ps' : List EProd} (h : repStep ty ps = .changed ps')
+    (hn : NoOpt ps) : NoOpt ps' := by
+  unfold repStep at h
+  split at h
+  · cases h
+  · rename_i L hL
+    obtain ⟨f, hf, rfl⟩ := locate_spec hL
+    have hfg := repInner_eq hf
+    subst hfg
+    split at h
+    · cases h
+    · rename_i X hX
+      simp only at h
+      injection h with h
+      subst h
+      apply noOpt_mid hn
+      intro hp q hq
+      obtain ⟨h1, h2, h3, h4, h5⟩ := Loc.prod_noOpt hp
+      have h3' : altsHasOpt L.inner = false := by simpa [Factor.hasOpt] using h3
+      simp only [List.mem_cons, List.not_mem_nil, or_false] at hq
+      rcases hq with rfl | rfl | rfl
+      · apply Loc.withAlt_noOpt h1 _ h5
+        simp [altHasOpt_append, altHasOpt, Factor.hasOpt, h2, h4]
+      · intro a ha
+        simp only [List.mem_singleton] at ha
+        subst ha
+        simp only
+        cases ty <;> split <;>
+          simp_all [altHasOpt_append, altHasOpt, Factor.hasOpt, altsHasOpt]
+      · intro a ha
+        simp only [List.mem_singleton] at ha
+        subst ha
+        rfl
+
+/-! ## the loops -/
+
+theorem iterStep_ok (step : List EProd → StepRes) (Inv : List EProd → Prop)
+    (hstep : ∀ a b, Inv a → step a = .changed b → StepOK a b ∧ Inv b) :
+    ∀ (fuel : Nat) (ps : List EProd) (m : Bool) (ps' : List EProd) (m' : Bool), Inv ps →
+      iterStep step fuel ps m = .ok (ps', m') →
+      StepOK ps ps' ∧ Inv ps' ∧ step ps' = .unchanged
+  | 0, _, _, _, _, _, h => by simp [iterStep] at h
+  | f+1, ps, m, ps', m', hi, h => by
+    simp only [iterStep] at h
+    split at h
+    · rename_i hu
+      simp only [Res.ok.injEq, Prod.mk.injEq] at h
+      obtain ⟨rfl, rfl⟩ := h
+      exact ⟨StepOK.refl _, hi, hu⟩
+    · rename_i ps1 hc
+      obtain ⟨h1, hi1⟩ := hstep ps ps1 hi hc
+      obtain ⟨h2, hi2, hu⟩ := iterStep_ok step Inv hstep f ps1 true ps' m' hi1 h
+      exact ⟨h1.trans h2, hi2, hu⟩
+    · cases h
+    · cases h
+
+theorem Res.bind_ok {α β} {r : Res α} {f : α → Res β} {b : β} (h : r.bind f = .ok b) :
+    ∃ a, r = .ok a ∧ f a = .ok b := by
+  cases r with
+  | ok a => exact ⟨a, rfl, h⟩
+  | fuel => cases h
+  | panic => cases h
+
+theorem pass_ok {ty : GType} {fuel : Nat} {ps ps' : List EProd} {m : Bool}
+    (hn : NoOpt ps) (h : pass ty fuel ps = .ok (ps', m)) : StepOK ps ps' ∧ NoOpt ps' := by
+  unfold pass at h
+  obtain ⟨⟨ps1, m1⟩, h1, h⟩ := Res.bind_ok h
+  obtain ⟨⟨ps2, m2⟩, h2, h⟩ := Res.bind_ok h
+  obtain ⟨⟨ps3, m3⟩, h3, h⟩ := Res.bind_ok h
+  simp only at h
+  obtain ⟨s1, n1, _⟩ := iterStep_ok sepStep NoOpt
+    (fun a b ha hc => ⟨sepStep_ok hc, sepStep_noOpt hc ha⟩) _ _ _ _ _ hn h1
+  obtain ⟨s2, n2, _⟩ := iterStep_ok (repStep ty) NoOpt
+    (fun a b ha hc => ⟨repStep_ok hc, repStep_noOpt hc ha⟩) _ _ _ _ _ n1 h2
+  obtain ⟨s3, n3, _⟩ := iterStep_ok optStep NoOpt
+    (fun a b ha hc => by rw [optStep_noOpt ha] at hc; cases hc) _ _ _ _ _ n2 h3
+  obtain ⟨s4, n4, _⟩ := iterStep_ok groupStep NoOpt
+    (fun a b ha hc => ⟨groupStep_ok hc, groupStep_noOpt hc ha⟩) _ _ _ _ _ n3 h
+  exact ⟨(s1.trans s2).trans (s3.trans s4), n4⟩
+
+theorem passLoop_ok {ty : GType} {fuel : Nat} : ∀ (n : Nat) (ps ps' : List EProd), NoOpt ps →
+    passLoop ty fuel n ps = .ok ps' → StepOK ps ps'
+  | 0, _, _, _, h => by simp [passLoop] at h
+  | n+1, ps, ps', hn, h => by
+    simp only [passLoop] at h
+    split at h
+    · rename_i ps1 hp
+      obtain ⟨s1, n1⟩ := pass_ok hn hp
+      exact s1.trans (passLoop_ok n ps1 ps' n1 h)
+    · rename_i ps1 hp
+      injection h with h
+      subst h
+      exact (pass_ok hn hp).1
+    · cases h
+    · cases h
+
+/-! ## `finalize` -/
+
+theorem toSymN_toFactor : ∀ (fs : List Factor) (rhs : List SymN),
+    fs.mapM Factor.toSymN = some rhs → rhs.map SymN.toFactor = fs
+  | [], rhs, h => by
+    simp at h
+    subst h; rfl
+  | f :: fs, rhs, h => by
+    simp only [List.mapM_cons, Option.bind_eq_bind, Option.bind_eq_some_iff] at h
+    obtain ⟨s, hs, rest, hr, e⟩ := h
+    simp only [Option.pure_def, Option.some.injEq] at e
+    subst e
+    have := toSymN_toFactor fs rest hr
+    cases f <;> simp [Factor.toSymN] at hs <;> subst hs <;> simp [SymN.toFactor, this]
+
+theorem finalizeProd_toEProd {p : EProd} {r : RuleN} (h : finalizeProd p = some r) :
+    r.toEProd = p := by
+  unfold finalizeProd at h
+  split at h
+  · rename_i a ha
+    simp only [Option.map_eq_some_iff] at h
+    obtain ⟨rhs, hr, rfl⟩ := h
+    cases p with
+    | mk lhs alts =>
+      simp only at ha
+      subst ha
+      simp [RuleN.toEProd, toSymN_toFactor _ _ hr]
+  · cases h
+
+theorem finalize_toEProd : ∀ (ps : List EProd) (rs : List RuleN),
+    finalize ps = some rs → rs.map RuleN.toEProd = ps
+  | [], rs, h => by
+    simp [finalize] at h
+    subst h; rfl
+  | p :: ps, rs, h => by
+    simp only [finalize, List.mapM_cons, Option.bind_eq_bind, Option.bind_eq_some_iff] at h
+    obtain ⟨r, hr, rest, hrest, e⟩ := h
+    simp only [Option.pure_def, Option.some.injEq] at e
+    subst e
+    simp [finalizeProd_toEProd hr, finalize_toEProd ps rest hrest]
+
+/-- The model's `transform_productions` result is, as an EBNF production list, reached from the
+    input by language-preserving steps. -/
+theorem canon_ok {ty : GType} {fuel : Nat} {ps : List EProd} {rs : List RuleN}
+    (h : canon ty fuel ps = .ok rs) : StepOK ps (rs.map RuleN.toEProd) := by
+  unfold canon at h
+  split at h
+  · cases h
+  · cases h
+  · rename_i ps0 m0 h0
+    obtain ⟨s0, _, hu⟩ := iterStep_ok extractStep (fun _ => True)
+      (fun a b _ hc => ⟨extractStep_ok hc, trivial⟩) _ _ _ _ _ trivial h0
+    have n0 : NoOpt ps0 := extractInProds_unchanged _ _ hu
+    split at h
+    · cases h
+    · cases h
+    · rename_i ps1 h1
+      split at h
+      · rename_i rs' hf
+        injection h with h
+        subst h
+        rw [finalize_toEProd _ _ hf]
+        exact s0.trans (passLoop_ok _ _ _ n0 h1)
+      · cases h
+
 end ParolModel
